@@ -27,7 +27,7 @@ FIELDS = ('_inputs', '_outputs', '_gates', '_gate_to_users', '_blocks')
 # C02.IDX: fold the representation primitives over model states
 
 
-def fold_primitives(ck: Checker, den: Denotations, R='C02.IDX'):
+def fold_primitives(ck: Checker, den: Denotations, R='C02.IDX', which=('emplace', 'remove', 'rename', 'replace_inputs', 'block')):
     repo = ck.repo
     M = cm.Model(repo, den)
     mod = M.mod
@@ -47,7 +47,7 @@ def fold_primitives(ck: Checker, den: Denotations, R='C02.IDX'):
 
     # _emplace_gate / _add_gate: every equality pattern of operand tuples up to length 3
     patterns = [(), ('a',), ('a', 'b'), ('a', 'a'), ('g1', 'a', 'g1'), ('g4', 'g5', 'c')]
-    for ops in patterns:
+    for ops in (patterns if 'emplace' in which else []):
         for method in ('_emplace_gate', '_add_gate'):
             c = fresh()
             pre = cm.snapshot(c)
@@ -65,7 +65,7 @@ def fold_primitives(ck: Checker, den: Denotations, R='C02.IDX'):
                 if post['inputs'] != pre['inputs'] or post['outputs'] != pre['outputs']:
                     extra.append('inputs/outputs changed by adding a non-input gate')
             report(method, f'(n, ops={ops})', c, err, extra)
-    for method in ('_emplace_gate', '_add_gate'):
+    for method in (('_emplace_gate', '_add_gate') if 'emplace' in which else ()):
         c = fresh()
         pre = cm.snapshot(c)
         if method == '_emplace_gate':
@@ -84,7 +84,7 @@ def fold_primitives(ck: Checker, den: Denotations, R='C02.IDX'):
         'dup-operand XOR g3 in block': ([s for s in cm.BASE_SPEC if s[0] != 'g5'], ('g4', 'g3'), cm.BASE_BLOCKS, 'g3'),
         'block input': ([('a', 'INPUT', ()), ('b', 'INPUT', ()), ('g', 'AND', ('a', 'a'))], ('g',), (('B', ('b',), ('g',), ('g',)),), 'b'),
     }
-    for case, (spec, outs, blocks, victim) in specs.items():
+    for case, (spec, outs, blocks, victim) in (specs.items() if 'remove' in which else ()):
         c = M.new_circuit(spec, outs, blocks)
         pre = cm.snapshot(c)
         _, err = M.call(c, '_remove_gate', victim)
@@ -109,7 +109,7 @@ def fold_primitives(ck: Checker, den: Denotations, R='C02.IDX'):
     # unchecked removal of a gate that still has users (as _remove_block does): the removed gate's own
     # entry must disappear from the raw index and it must stop being listed as a user of its operands
     c = fresh()
-    _, err = M.call(c, '_remove_gate', 'g1')
+    _, err = M.call(c, '_remove_gate', 'g1') if 'remove' in which else (None, 'skip')
     raw = c._d['_gate_to_users']
     probs = []
     if not err:
@@ -119,11 +119,12 @@ def fold_primitives(ck: Checker, den: Denotations, R='C02.IDX'):
             probs.append('removed gate still listed as a user of its operands')
         if 'g1' in c._d['_gates']:
             probs.append('gate still present')
-    ck.check(not err and not probs, R, mod, mod.func('Circuit._remove_gate'), '_remove_gate of a gate that has users (block removal) drops its index entry',
-             err or '; '.join(probs), construct='_remove_gate(gate with users)')
+    if 'remove' in which:
+        ck.check(not err and not probs, R, mod, mod.func('Circuit._remove_gate'), '_remove_gate of a gate that has users (block removal) drops its index entry',
+                 err or '; '.join(probs), construct='_remove_gate(gate with users)')
 
     # rename_gate: result must be the pre-state with the label substituted everywhere
-    for old in ('a', 'c', 'g1', 'g2', 'g3', 'g4', 'g5'):
+    for old in (('a', 'c', 'g1', 'g2', 'g3', 'g4', 'g5') if 'rename' in which else ()):
         c = fresh()
         pre = cm.snapshot(c)
         _, err = M.call(c, 'rename_gate', old, 'zz')
@@ -135,7 +136,7 @@ def fold_primitives(ck: Checker, den: Denotations, R='C02.IDX'):
                 if post[k] != want[k]:
                     extra.append(f'{k} after rename = {post[k]}, expected {want[k]}')
         report('rename_gate', f'({old} -> zz)', c, err, extra)
-    for args, exc in ((('nope', 'zz'), 'raise'), (('a', 'g1'), 'raise')):
+    for args, exc in (((('nope', 'zz'), 'raise'), (('a', 'g1'), 'raise')) if 'rename' in which else ()):
         c = fresh()
         pre = cm.snapshot(c)
         _, err = M.call(c, 'rename_gate', *args)
@@ -145,7 +146,7 @@ def fold_primitives(ck: Checker, den: Denotations, R='C02.IDX'):
                  f'call {"returned normally" if not err else "raised after modifying the circuit"}', construct=f'rename_gate{args} refused')
 
     # replace_inputs
-    for tt, ff in ((['a'], []), ([], ['b']), (['a'], ['c']), (['c', 'a'], ['b'])):
+    for tt, ff in (((['a'], []), ([], ['b']), (['a'], ['c']), (['c', 'a'], ['b'])) if 'replace_inputs' in which else ()):
         c = fresh()
         pre = cm.snapshot(c)
         _, err = M.call(c, 'replace_inputs', list(tt), list(ff))
@@ -166,11 +167,14 @@ def fold_primitives(ck: Checker, den: Denotations, R='C02.IDX'):
                 extra.append('outputs changed')
         report('replace_inputs', f'(true={tt}, false={ff})', c, err, extra)
     c = fresh()
-    _, err = M.call(c, 'replace_inputs', ['g1'], [])
-    ck.check(err == 'raise:GateNotInputError', R, mod, mod.func('Circuit.replace_inputs'), 'fixing a non-input gate is refused',
+    _, err = M.call(c, 'replace_inputs', ['g1'], []) if 'replace_inputs' in which else (None, None)
+    if 'replace_inputs' in which:
+      ck.check(err == 'raise:GateNotInputError', R, mod, mod.func('Circuit.replace_inputs'), 'fixing a non-input gate is refused',
              f'replace_inputs on a non-input gate: {err or "returned normally"}', construct='replace_inputs(non-input) refused')
 
     # Block._rename_gate
+    if 'block' not in which:
+        return M
     blk_fn = mod.func('Block._rename_gate')
     c = fresh()
     b = c._d['_blocks']['B1']
